@@ -1,6 +1,7 @@
 """Configuration of ./check C10 (see pylib/props.py)."""
 CFG = dict(
-        coq=["props/C10.vo"],
+        coq=["props/C10.vo", "props/Compose.vo"],
+        compose=['Compose_is_ancestor', 'Compose_seek', 'Compose_forward_only', 'Compose_log_true', 'Compose_merge_ok', 'Compose_pull_ok', 'Compose_fetch_ok', 'Compose_push_ok', 'Compose_store_closed'],
         tie=["gen/Tie_C10.vo"],
         model_vo=["model/RefUpdate.vo"],
         extract="Ex_C10",
